@@ -4301,6 +4301,15 @@ fn parse_qualifiers<'a>(
         } else {
             Ok((newarg, remainder, qualifier, AnnotationDepth::One))
         }
+    } else if arg == "RECURSIVE" {
+        //RECURSIVE without a preceding AS qualifier (this is how it is serialised too)
+        let (newarg, remainder, _) = get_arg(querystring)?;
+        Ok((
+            newarg,
+            remainder,
+            SelectionQualifier::Normal,
+            AnnotationDepth::Max,
+        ))
     } else {
         Ok((
             arg,
